@@ -61,7 +61,7 @@ def handle (args : List String) (impl : String) : R Ans :=
       | some l =>
         let bs := (Lmer.toBytes l).getD []
         let canon := Lmer.fromSlice n bs
-        ";".intercalate tr.reverse ++ s!"|len={(Lmer.len l).getD 0} bytes={showNats bs} eqc={if some l == canon then 1 else 0} hashc={if some l == canon then 1 else 0}"
+        ";".intercalate tr.reverse ++ s!"|len={(Lmer.len l).getD 0} bytes={showNats bs} eqc={if some l == canon then 1 else 0} hashc={if some l == canon then 1 else 0} cmpc={if some l == canon then 1 else 0} dbg=1 it={adaptorsTxt (bs.map toString)}"
     let inRange := seq.length ≤ Lmer.maxLen n
     let verdict ← do
       if ¬ inRange then pure "ok" else
@@ -80,7 +80,7 @@ def handle (args : List String) (impl : String) : R Ans :=
             if Lmer.len st ≠ some seq.length then v := "FAIL:stored-length-changed"
             else if Lmer.toBytes st ≠ some l then v := "FAIL:bases-differ-from-vector"
             else if ¬ invOk st then v := "FAIL:bits-set-beyond-the-length(eq/hash would depend on history)"
-        let expect := s!"len={seq.length} bytes={showNats l} eqc=1 hashc=1"
+        let expect := s!"len={seq.length} bytes={showNats l} eqc=1 hashc=1 cmpc=1 dbg=1 it={adaptorsTxt (l.map toString)}"
         if v == "ok" ∧ tl ≠ expect then v := s!"FAIL:len/bytes/eq/hash-differ-from-vector(expected {expect})"
         pure v
       | _ => pure "FAIL:malformed-answer"
